@@ -26,6 +26,53 @@ def EqAt (sys : Sys) (a : Asg) (v : Nat) : Prop :=
 
 def Sol (sys : Sys) (a : Asg) : Prop := ∀ v, v < sys.length → EqAt sys a v
 
+theorem eqAt_union {sys : Sys} {a : Asg} {v : Nat} (h : opOf sys v = .union) :
+    EqAt sys a v ↔ ∀ x, a v x ↔ (x ∈ initOf sys v ∨ ∃ w ∈ edgesOf sys v, a w x) := by
+  unfold EqAt; rw [h]
+
+theorem eqAt_inter {sys : Sys} {a : Asg} {v : Nat} (h : opOf sys v = .inter) :
+    EqAt sys a v ↔ ∀ x, a v x ↔ ∀ w ∈ edgesOf sys v, a w x := by
+  unfold EqAt; rw [h]
+
+theorem eqAt_compl {sys : Sys} {a : Asg} {v : Nat} (h : opOf sys v = .compl) :
+    EqAt sys a v ↔ ∃ w, edgesOf sys v = [w] ∧ ∀ x, a v x ↔ ¬ a w x := by
+  unfold EqAt; rw [h]
+
+/-- the equation of a node only reads the node and its successors -/
+theorem eqAt_congr {sys : Sys} {a b : Asg} {v : Nat} (hv : ∀ x, a v x ↔ b v x)
+    (hw : ∀ w ∈ edgesOf sys v, ∀ x, a w x ↔ b w x) : EqAt sys a v ↔ EqAt sys b v := by
+  unfold EqAt
+  split
+  · constructor
+    · intro h x; rw [← hv x, h x]
+      constructor
+      · rintro (h1 | ⟨w, hw1, h1⟩)
+        · exact .inl h1
+        · exact .inr ⟨w, hw1, (hw w hw1 x).1 h1⟩
+      · rintro (h1 | ⟨w, hw1, h1⟩)
+        · exact .inl h1
+        · exact .inr ⟨w, hw1, (hw w hw1 x).2 h1⟩
+    · intro h x; rw [hv x, h x]
+      constructor
+      · rintro (h1 | ⟨w, hw1, h1⟩)
+        · exact .inl h1
+        · exact .inr ⟨w, hw1, (hw w hw1 x).2 h1⟩
+      · rintro (h1 | ⟨w, hw1, h1⟩)
+        · exact .inl h1
+        · exact .inr ⟨w, hw1, (hw w hw1 x).1 h1⟩
+  · constructor
+    · intro h x; rw [← hv x, h x]
+      exact ⟨fun h1 w hw1 => (hw w hw1 x).1 (h1 w hw1), fun h1 w hw1 => (hw w hw1 x).2 (h1 w hw1)⟩
+    · intro h x; rw [hv x, h x]
+      exact ⟨fun h1 w hw1 => (hw w hw1 x).2 (h1 w hw1), fun h1 w hw1 => (hw w hw1 x).1 (h1 w hw1)⟩
+  · constructor
+    · rintro ⟨w, he, h⟩
+      refine ⟨w, he, fun x => ?_⟩
+      rw [← hv x, h x, hw w (by rw [he]; simp) x]
+    · rintro ⟨w, he, h⟩
+      refine ⟨w, he, fun x => ?_⟩
+      rw [hv x, h x, hw w (by rw [he]; simp) x]
+
 /-- the representation invariant of systems (`wfB`) as propositions -/
 structure Wf (sys : Sys) : Prop where
   edges : ∀ v w, w ∈ edgesOf sys v → w < sys.length
@@ -118,7 +165,12 @@ theorem assignAll_getD (sets : List IntSet) (comp : List Nat) (res : IntSet) (u 
     rw [ih]
     simp only [List.length_set, List.mem_cons, List.getElem?_set]
     by_cases h1 : u ∈ comp
-    · simp [h1]
+    · by_cases h3 : u < sets.length
+      · simp [h1, h3]
+      · have h4 : sets[u]? = none := List.getElem?_eq_none (Nat.le_of_not_lt h3)
+        by_cases h2 : v = u
+        · subst h2; simp [h1, h3]
+        · simp [h1, h3, h2]
     · by_cases h2 : u = v
       · subst h2
         by_cases h3 : u < sets.length <;> simp [h1, h3]
@@ -126,6 +178,16 @@ theorem assignAll_getD (sets : List IntSet) (comp : List Nat) (res : IntSet) (u 
         simp [h1, h2, this]
 
 /-! ### strongly connected components -/
+
+theorem transGen_head_cases {α : Type} {r : α → α → Prop} {a c : α} (p : Relation.TransGen r a c) :
+    ∃ b, r a b ∧ (b = c ∨ Relation.TransGen r b c) := by
+  induction p with
+  | single e => exact ⟨_, e, .inl rfl⟩
+  | tail _ e ih =>
+    obtain ⟨b, hab, h⟩ := ih
+    rcases h with rfl | q
+    · exact ⟨b, hab, .inr (.single e)⟩
+    · exact ⟨b, hab, .inr (.tail q e)⟩
 
 /-- A member of a strongly connected component either has an edge into the component or is alone. -/
 theorem scc_edge_or_single {g : Graph} {comp : List Nat}
@@ -139,12 +201,8 @@ theorem scc_edge_or_single {g : Graph} {comp : List Nat}
     rcases hsc.1 with e | p
     · exact e.symm
     · exfalso
-      obtain ⟨w, hvw, hwu⟩ := Relation.TransGen.head'_iff.1 p
-      have hwu' : Reach g w u := by
-        rcases Relation.reflTransGen_iff_eq_or_transGen.1 hwu with e | q
-        · exact .inl e.symm
-        · exact .inr q
-      exact h ⟨w, hvw, (hscc v hv w).2 ⟨Reach.edge hvw, hwu'.trans hsc.2⟩⟩
+      obtain ⟨w, hvw, hwu'⟩ := transGen_head_cases p
+      exact h ⟨w, hvw, (hscc v hv w).2 ⟨Reach.edge hvw, Reach.trans (show Reach g w u from hwu') hsc.2⟩⟩
 
 /-- Inside a component whose members with an inner edge all pass their successors' elements up
 (`hup`), every member contains every other member. -/
